@@ -396,6 +396,10 @@ def truth_of(expr, env):
             return (False, 'NONE')
         if isinstance(expr.value, int) and not isinstance(expr.value, bool) and expr.value >= 0:
             return (bool(expr.value), ('INT', min(expr.value, 2)))      # 2 stands for "two or more"
+        if isinstance(expr.value, str):
+            import re as _re
+            lit = _re.sub(r'\{[^{}]*\}', '', expr.value)
+            return (bool(expr.value), ('STR', bool(lit)))             # a template with literal text formats to a non-empty string
         return (bool(expr.value), None)
     if isinstance(expr, ast.Name):
         v = env.get(expr.id, (None, None))
@@ -442,6 +446,11 @@ def truth_of(expr, env):
             import re as _re
             lit = _re.sub(r'\{[^{}]*\}', '', f.value.value)
             return (True if lit else None, None)
+        if isinstance(f, ast.Attribute) and f.attr == 'format' and isinstance(f.value, ast.Name):
+            v = env.get(f.value.id, (None, None))
+            if isinstance(v[1], tuple) and v[1] and v[1][0] == 'STR' and v[1][1]:
+                return (True, None)
+            return (None, None)
         if isinstance(f, ast.Name) and f.id == 'bool' and len(expr.args) == 1:
             return (truth_of(expr.args[0], env)[0], None)
         return (None, None)
